@@ -3,7 +3,8 @@ import B6.Model.Search
 /-!
 Driver for C06.  One case = one index, then any number of (query, call sequence) blocks.
 
-ops (tokens are written with a leading `'` so that the empty token/prefix is a word; values are naturals):
+ops (tokens are written as `'` + the hex of their bytes, so any byte string — also the empty one — is a word;
+values are naturals):
   `index <array|tree> 'tok ( v v v ) 'tok ( ) …`, `index compact 'ns 'ns … | 'tok ( v v ) …` (namespace table first)   answer `ok`         tokens and values in increasing order
   `query <q>`                                       answer `ok`         q ::= ( e ) | ( a 'tok ) | ( u q* ) | ( i q* )
                                                                               | ( r <begin> <end> q ) | ( p 'prefix )
@@ -18,9 +19,18 @@ model is compared.  The harness stops a call sequence at the first `false`.
 open B6.Driver B6.Spec.Cursor B6.Spec.SearchQuery B6.Model.Search
 namespace B6.Driver.C06
 
-def parseTok (w : String) : Option Token :=
+/-- a raw word after the quote (namespace names) -/
+def parseRaw (w : String) : Option (List Char) :=
   match w.toList with
   | '\'' :: cs => some cs
+  | _ => none
+
+/-- a token: `'` followed by the hex of its bytes; each byte becomes one `Char` (so `<` on tokens is Go's byte-wise
+string order and `isPrefixOf` is `strings.HasPrefix`) -/
+def parseTok (w : String) : Option Token :=
+  match w.toList with
+  | '\'' :: cs => (parseHex (String.ofList cs)).bind fun bs =>
+      if cs.isEmpty then some [] else some (bs.map fun b => Char.ofNat b.toNat)
   | _ => none
 
 /-- `'tok ( v v ) 'tok ( ) …` -/
@@ -139,7 +149,7 @@ def step (st : St) (op impl : String) : St × Verdict :=
     let (names?, rest) : Option (List String) × List String :=
       if kind == "compact" then
         let ns := rest.takeWhile (· ≠ "|")
-        ((ns.mapM parseTok).map (·.map String.ofList), (rest.dropWhile (· ≠ "|")).drop 1)
+        ((ns.mapM parseRaw).map (·.map String.ofList), (rest.dropWhile (· ≠ "|")).drop 1)
       else (some [], rest)
     match k?, names?, parseLists rest [] with
     | some k, some names, some lists =>
